@@ -740,3 +740,66 @@ Theorem C13_src_copyToBuffer_fresh :
   src_copyToBuffer fuel m (Ptr b o) (Ptr bd 0) (Z.of_nat dn) = FOk (tt, upd m bd (t_copy_out s dn)).
 Proof. exact src_copyToBuffer_fresh. Qed.
 Print Assumptions C13_src_copyToBuffer_fresh.
+
+(* ---------------- ALIASING: the argument of an operation points into the object's OWN buffer (C13_Alias.v: buffers in a heap of blocks, a
+   released block cannot be read, a pointer is turned into cells at the moment the code reads through it) *)
+From CppUVerif Require Import C13_Alias C13_AliasProofs.
+
+(* s = s.asCharString() + k (also: SimpleString t(s.asCharString() + k); s = t) for EVERY offset into the buffer, the terminator included:
+   no released or foreign cell is read, the object's new live buffer holds exactly the suffix *)
+Theorem C13_alias_assign_from_own_buffer : forall h sid s k, AI (h, sid) s -> OKS s -> (k <= length s)%nat ->
+  exists st', assign_cstr h sid k = Ok st' /\ AI st' (skipn k s).
+Proof. exact assign_cstr_ok. Qed.
+Print Assumptions C13_alias_assign_from_own_buffer.
+
+(* s += s.asCharString() + k, s += s (k = 0) *)
+Theorem C13_alias_append_from_own_buffer : forall h sid s k, AI (h, sid) s -> OKS s -> (k <= length s)%nat ->
+  exists st', append_ptr h sid k = Ok st' /\ AI st' (s ++ skipn k s).
+Proof. exact append_ptr_ok. Qed.
+Print Assumptions C13_alias_append_from_own_buffer.
+
+(* s.replace(s.asCharString() + k1, s.asCharString() + k2) *)
+Theorem C13_alias_replace_from_own_buffer : forall h sid s k1 k2, AI (h, sid) s -> OKS s -> (k1 <= length s)%nat -> (k2 <= length s)%nat ->
+  exists st', replace_ptr h sid k1 k2 = Ok st' /\ AI st' (t_replace s (skipn k1 s) (skipn k2 s)).
+Proof. exact replace_ptr_ok. Qed.
+Print Assumptions C13_alias_replace_from_own_buffer.
+
+(* every statement of the aliasing language from every state satisfying the invariant: Ok, the invariant again, the textbook value *)
+Theorem C13_alias_step_spec : forall st s q, AI st s -> OKS s -> valid_aop s q = true ->
+  exists st', astep st q = Ok st' /\ AI st' (t_astep s q) /\ OKS (t_astep s q).
+Proof. exact astep_ok. Qed.
+Print Assumptions C13_alias_step_spec.
+
+(* every observer (==, contains, startsWith, endsWith, count with a pointer into itself / with itself, StrStr and StrCmp inside one buffer)
+   reports the textbook entry *)
+Theorem C13_alias_observers_spec : forall st s q, AI st s -> OKS s -> valid_aop s q = true -> aobs st q = Ok (t_aobs s q).
+Proof. exact aobs_ok. Qed.
+Print Assumptions C13_alias_observers_spec.
+
+(* every history *)
+Theorem C13_alias_history_spec : forall ops st s, AI st s -> OKS s -> valid_aops s ops = true ->
+  exists st' s', arun st ops = Ok (st', tl (t_arun s ops)) /\ AI st' s' /\ OKS s' /\ hd [] (t_arun s ops) = s'.
+Proof. exact arun_ok. Qed.
+Print Assumptions C13_alias_history_spec.
+
+(* the scenario language of the check, extended by the aliasing histories: the oracle accepts every model observation, which is never an error *)
+Theorem C13_xscn_meets_spec : forall x, valid_x x = true -> spec_x x (run_x x) = true.
+Proof. exact x_meets_spec. Qed.
+Print Assumptions C13_xscn_meets_spec.
+Theorem C13_xscn_safe : forall x, valid_x x = true -> o_val (run_x x) <> VErr.
+Proof. exact x_safe. Qed.
+Print Assumptions C13_xscn_safe.
+Theorem C13_xscn_embeds_scenarios : forall s, run_x (XOld s) = run_scn s /\ valid_x (XOld s) = valid_scn s /\ forall ob, spec_x (XOld s) ob = spec_scn s ob.
+Proof. intro s. repeat split. Qed.
+Print Assumptions C13_xscn_embeds_scenarios.
+
+(* refuted variant: a direct overload operator=(const char* ) that releases the old buffer before reading its argument reads a released
+   buffer for EVERY pointer into the own buffer ... *)
+Theorem C13_alias_assign_direct_refuted : forall h sid k, assign_cstr_direct h sid sid k = Oob.
+Proof. exact assign_direct_own_refuted. Qed.
+Print Assumptions C13_alias_assign_direct_refuted.
+(* ... and is the same assignment whenever the argument lives in another live block (why no test with a literal or a second object sees it) *)
+Theorem C13_alias_assign_direct_unseen_for_foreign_arguments : forall h sid ob s a k, AI (h, sid) s -> ob <> sid -> h_get h ob = Some (cs a) -> OKS a ->
+  (k <= length a)%nat -> exists st', assign_cstr_direct h sid ob k = Ok st' /\ AI st' (skipn k a).
+Proof. exact assign_direct_foreign_same_value. Qed.
+Print Assumptions C13_alias_assign_direct_unseen_for_foreign_arguments.
